@@ -121,6 +121,8 @@ Definition step_evs (pre post : storage) (o : op) : list ev :=
                                                  then dump_evs (b_id b) else []
                                     | None => open_new_evs (b_id b) end) (all_blobs post)
                  ++ empty_dump_syncs (closed_blobs post)
+                 (* a blob file that cannot be read back is moved to the corrupted directory: a rename, no write *)
+  | OCut _ _ => []   (* damage done by a crash between two sessions: not an operation of the storage *)
   | _ => created_or_changed ++ dump_pass
   end.
 End K.
